@@ -163,6 +163,44 @@ pub fn gen_case(src: &mut Src, _i: usize) -> Case {
     case
 }
 
+/// call boundaries anywhere: a scroll-heavy input with many strings (8-bit introducers and
+/// terminators, so that whole chunks contain no ESC) is cut at random character positions -
+/// inside strings, inside parameter lists - and the bound is checked after every piece
+pub fn gen_split(src: &mut Src, _i: usize) -> Case {
+    let (cols, rows) = gen::small_size(src);
+    let limit = *src.pick(&LIMITS);
+    let mut g = G::new(cols, rows).with_raw(1);
+    g.ris = false;
+    g.c1 = true;
+    g.w[gen::CAT_INERT] = 8;
+    g.w[gen::CAT_C0] = 10;
+    g.w[gen::CAT_ALT] = 3;
+    let mut all = String::new();
+    for _ in 0..src.range(3, 12) {
+        match src.below(4) {
+            0 => all.push_str(&scroll_heavy(src, &g)),
+            1 => {
+                // a string opened and closed without ESC, scrolling output in between
+                all.push_str(*src.pick(&["\u{9d}", "\u{90}", "\u{9f}", "\u{98}", "\u{9e}"]));
+                all.push_str(*src.pick(&["0;title", "q#1;2", "payload payload", ""]));
+                all.push_str(*src.pick(&["\u{9c}", "\x07", "\x18", "\u{85}", "\u{84}"]));
+                all.push_str(&"\n".repeat(src.range(1, rows + 3)));
+            }
+            _ => all.push_str(&gen::input(src, &g, 4)),
+        }
+    }
+    let chars: Vec<char> = all.chars().collect();
+    let mut case = Case::new(cols, rows, Some(limit));
+    let mut i = 0;
+    while i < chars.len() {
+        let k = src.range(1, 12).min(chars.len() - i);
+        case.calls.push(Call::FeedStr(chars[i..i + k].iter().collect()));
+        i += k;
+    }
+    case.nums = vec![src.below(3)];
+    case
+}
+
 /// long sessions: hundreds of calls, thousands of scrolled lines, limits 100 / 1000 / 255 / 256
 pub fn gen_long_session(src: &mut Src, _i: usize) -> Case {
     let (cols, rows) = if src.chance(1, 3) { (80, 24) } else { gen::small_size(src) };
@@ -284,6 +322,7 @@ pub fn run(env: &Env) -> PropRun {
     let mut parts = vec![];
     let en = enum_narrowing();
     parts.push(run_part(env, "enum-narrowing", en.len(), true, "12 limits x 3 sizes x {1,5,30} long lines x narrowing to {1,2,3,7} columns x with/without an alternate-screen excursion x 3 drain patterns", &|i| en.get(i).cloned(), &j));
+    parts.push(random_part(env, "split-anywhere", env.tier.scale(40_000, 30), &gen_split, &j));
     parts.push(random_part(env, "bulk-backlog", env.tier.scale(160, 20), &gen_bulk, &j));
     // magnitudes of the limit itself: 4096 ... 250 000 lines, flooded past limit + 10 % in one
     // call, in several calls, and one line per call for the last stretch
